@@ -1,0 +1,27 @@
+//go:build verif
+
+package service
+
+// Verification hooks (build tag verif). VerifYield, when set, is called at the yield points of
+// the replay cache so that an external cooperative scheduler can enumerate interleavings.
+// Yield points are never inside a critical section.
+
+// VerifYield is the yield callback; nil means no-op.
+var VerifYield func(point string)
+
+func verifYield(point string) {
+	if f := VerifYield; f != nil {
+		f(point)
+	}
+}
+
+// VerifResetReplayCache empties the replay cache singleton (creating it if necessary without
+// starting a second janitor) so that recorded histories are independent of each other.
+func VerifResetReplayCache() {
+	c := GetReplayCache(1 << 62)
+	c.mux.Lock()
+	defer c.mux.Unlock()
+	for k := range c.entries {
+		delete(c.entries, k)
+	}
+}
